@@ -15,7 +15,7 @@ import (
 func TestMain(m *testing.M) {
 	h.Setup("C01",
 		"F-core AST (depth<=4) printed canonically or in x-mode x option subsets of {i,m,s,n,x,RE2} x inputs (bounded-exhaustive over a 2-4 symbol pattern-derived alphabet, len<=5/4, for ~1/4 of the patterns; otherwise 10 pattern-directed/random strings) x every start offset; one evaluation = one (pattern,input,offset) comparison of FindRunesMatchStartingAt with the reference matcher; non-trivial = the reference finds a match and the pattern has a choice point (alternation, quantifier, lookaround, backreference, conditional), or there is no match although a literal rune of the pattern occurs in the input; distinct = hash of (pattern, options, input, offset)",
-		map[string]float64{"match": 0.22, "nomatch": 0.15, "startAt-inner": 0.25, "nonascii-input": 0.10,
+		map[string]float64{"match": 0.12, "nomatch": 0.15, "startAt-inner": 0.25, "nonascii-input": 0.10,
 			"feat:lookahead/patterns": 0.04, "feat:lookbehind/patterns": 0.04, "feat:atomic/patterns": 0.04, "feat:backref/patterns": 0.04, "feat:conditional/patterns": 0.04,
 			"feat:lazy/patterns": 0.04, "feat:counted-loop/patterns": 0.04, "feat:named-group/patterns": 0.04, "feat:inline-option/patterns": 0.04},
 		"the reference matcher (internal/refmatch) is a correct reading of the documented .NET-style semantics; it is guarded by a hand-checked table (TestReferenceTable) run in the replay tier",
